@@ -56,3 +56,13 @@ class RandomSearchDeme(AbstractDeme):
         self._history.append([pop])
         if tree._gsc(tree) or self._lsc(self):
             self._active = False
+
+
+class CallableObjective:
+    """An objective given as a callable instance (holds no state of its own besides the recorder closure)."""
+
+    def __init__(self, rec) -> None:
+        self.rec = rec  # functions are deep-copy-atomic, so the sprout mechanism's deep copies share it
+
+    def __call__(self, x, *args, **kwargs):
+        return self.rec(x, *args, **kwargs)
